@@ -146,6 +146,11 @@ func fillPat(pat string, q uint64, n int, rng *h.SplitMix) []uint64 {
 
 // ringSmoke checks one *ring.Ring (all of its moduli). which = "Q", "P", "T", "QMul".
 func ringSmoke(r *ring.Ring, which string, seed uint64, rec *h.Rec) error {
+	return ringSmokeOpt(r, which, seed, rec, true)
+}
+
+// ringSmokeOpt: product = false checks the round trip only.
+func ringSmokeOpt(r *ring.Ring, which string, seed uint64, rec *h.Rec, product bool) error {
 	if r == nil {
 		return nil
 	}
@@ -174,7 +179,7 @@ func ringSmoke(r *ring.Ring, which string, seed uint64, rec *h.Rec) error {
 				}
 			}
 		}
-		if n > 256 {
+		if n > 256 || !product {
 			continue
 		}
 		// product through the NTT (Barrett and Montgomery kernels)
